@@ -51,6 +51,7 @@ func ruleC01(w *World, r *Report) {
 	const P = "C01"
 	r.Explanation = "R01.1 every index, slice, fixed-width binary read, dereference of a possibly absent IE / error-accompanied result / optional object, unchecked type assertion, Fatal/panic/os.Exit and integer division in the repo functions reachable from the PFCP receive path (call, defer and go edges) is an obligation, discharged by an interval/difference-bound analysis over the SSA CFG (guards on len, range indexes, φ splitting, append/make lengths, single-writer fields), dominating nil / err checks, who-writes facts for containers, library post-conditions, or a line of the justification table backed by a secondary check; " +
 		"R01.2 no blocking channel operation in the synchronous call tree of the receive loop other than selects with default/timeout and the table's named sends; R01.3 an undecodable datagram returns before any state access and unsupported types send nothing (shared with C02's dispatch enumeration)."
+	r.Explanation += " R01.1.WRAP a loop counter of a type narrower than 64 bits that is compared with <= (>=) against a bound that can be the type's largest (smallest) value never terminates; R01.2.RELOCK no mutex is acquired again while the same goroutine holds it — directly, through a callee, or through the String()/Error() method of a value that is printed under the lock."
 	r.NotDecided = "that a later valid request is processed normally (state semantics); panics inside third-party libraries on inputs that satisfy their documented preconditions; memory exhaustion"
 	r.Assumptions = append(r.Assumptions,
 		"go-pfcp "+pinnedGoPfcp+": message.Parse leaves absent IE fields nil and IE lists free of nil elements; IE accessors return an error (never panic) on a non-nil receiver; constructors skip nil IEs",
@@ -63,6 +64,7 @@ func ruleC01(w *World, r *Report) {
 		eng.taObls(f)
 		eng.exitObls(f)
 		eng.divObls(f)
+		eng.wrapObls(f)
 	}
 	r.Extra["receive_path_functions"] = len(funcs)
 	r.floor("R01.1 functions on the receive path", len(funcs), 150)
@@ -74,6 +76,16 @@ func ruleC01(w *World, r *Report) {
 		beng.blkObls(f)
 	}
 	r.floor("R01.2 functions in the synchronous receive tree", len(sync), 100)
+	// R01.2 (wedge by self-deadlock): no mutex is acquired again while the same goroutine holds it —
+	// directly, through a callee, or through the String()/Error() method of a value that is logged
+	rl, sites := w.reentrantLocks(funcs)
+	for _, x := range rl {
+		r.bad("R01.2.RELOCK", w.FuncName(x.fn), "no re-acquisition of "+x.mu.Name()+" while it is held", w.Pos(posNear(x.ins)), "the mutex "+x.mu.Name()+" is held here and acquired again "+x.via+": sync mutexes are not reentrant, the handler blocks for ever and so does every later request that needs the lock")
+	}
+	if len(rl) == 0 {
+		r.ok("R01.2.RELOCK", "receive path", "no mutex is re-acquired while held (calls and printed values under a lock)", "-", fmt.Sprintf("%d calls / printed values examined under a non-empty lockset", sites))
+	}
+	r.floor("R01.2 call sites under a lock", sites, 20)
 
 	// the go-pfcp version the library facts were confirmed for
 	if p := w.Package(pfcpPkg); p != nil {
@@ -629,4 +641,22 @@ func (w *World) labelSafe(v ssa.Value, depth int, seen map[ssa.Value]bool) (bool
 		return false, symOf(v).String()
 	}
 	return false, symOf(v).String()
+}
+
+// posNear: the position of an instruction, or of the next instruction of its block that has one
+// (implicit conversions carry no position of their own).
+func posNear(ins ssa.Instruction) token.Pos {
+	if ins.Pos().IsValid() {
+		return ins.Pos()
+	}
+	on := false
+	for _, j := range ins.Block().Instrs {
+		if j == ins {
+			on = true
+		}
+		if on && j.Pos().IsValid() {
+			return j.Pos()
+		}
+	}
+	return ins.Parent().Pos()
 }
